@@ -40,6 +40,7 @@ type FnExec struct {
 	parent   *FnExec
 	topHeld  []heldLock
 	acqState *State
+	retPos   []token.Pos
 }
 
 func (fx *FnExec) analyzeCFG() {
@@ -326,8 +327,14 @@ func (fx *FnExec) execLoop(li *loopInfo) {
 		keys = append(keys, k)
 	}
 	sort.Strings(keys)
+	var lockKeys []string
 	for _, k := range keys {
-		if k == e.keyAlloc() {
+		if k == e.keyAlloc() || strings.HasPrefix(k, heldKeyPrefix) {
+			continue
+		}
+		if strings.HasPrefix(k, "K|") {
+			// lock state is not havocked: the body must leave it as it found it (checked at the back edge)
+			lockKeys = append(lockKeys, k)
 			continue
 		}
 		if tr.keys[k] {
@@ -395,6 +402,9 @@ func (fx *FnExec) execLoop(li *loopInfo) {
 		for _, inv := range lc.invs {
 			g := fx.evalSpecBool(inv.Expr, bs, fx.old, li)
 			e.addObl("contract", fmt.Sprintf("loop%d:inv%s:preserve", li.ord, inv.labelStr()), fx.clauseTags(inv), bs, g, li.header.Instrs[0].Pos())
+		}
+		for _, k := range lockKeys {
+			e.addObl("lock", fmt.Sprintf("balanced:loop%d:%s", li.ord, e.heapInfo[k].base), e.autoTags("lock", fx.fn), bs, eq(e.heapGet(bs, k), e.heapGet(head, k)), li.header.Instrs[0].Pos())
 		}
 		switch {
 		case lc.blocking:
@@ -476,6 +486,7 @@ func (fx *FnExec) execBlock(b *ssa.BasicBlock, st *State, loop *loopInfo) {
 			}
 			fx.rets = append(fx.rets, st)
 			fx.retVals = append(fx.retVals, rv)
+			fx.retPos = append(fx.retPos, in.Pos())
 			if fx.isTop {
 				if o := e.addObl("reach", fmt.Sprintf("return:%s", e.exprText(fx.fn, in.Pos())), e.autoTags("reach", fx.fn), st, "true", in.Pos()); o != nil {
 					o.Reach = true
@@ -639,6 +650,9 @@ func (fx *FnExec) execInstr(st *State, in ssa.Instruction) {
 			}
 			// locks inside start free
 			fx.initLocks(st, et, "", ref)
+			if k := e.keyIsA(et); k != "" {
+				e.heapWrite(st, k, store(e.heapGet(st, k), ref, "true"), ref)
+			}
 			fx.setReg(st, in, &Val{L: []string{ref}})
 			return
 		}
@@ -669,7 +683,7 @@ func (fx *FnExec) execInstr(st *State, in ssa.Instruction) {
 			return
 		}
 		ref := xv.L[0]
-		what := e.exprText(fx.fn, in.Pos())
+		what := shortTypeName(st0) + "." + fld.Name()
 		e.addObl("nopanic", "nil:"+what, fx.tagsNoPanic(), st, not(eq(ref, "0")), in.Pos())
 		e.assume(st, not(eq(ref, "0")))
 		lo, hi := e.fl.fieldRange(st0, in.Field)
